@@ -212,7 +212,8 @@ def run_vh(vh, args, cases, timeout=1800, env=None, hang_is_failure=False, death
             j["vh_env"] = {k: v for k, v in (env or {}).items() if k.startswith("VERIF_")}
             fails.append(j)
         elif j.get("summary"):
-            summary = j
+            import collections
+            summary = collections.defaultdict(int, j)  # an aborted run (watchdog) has only the common keys
         else:
             other.append(j)
     if summary is None:
